@@ -512,7 +512,7 @@ private def ex1data : Env :=
   [(['x', 's'], .list [.int 0, .int 2]), (['x'], .atom (.str ['o']))]
 
 example : implRender 100 ex1 ex1data =
-    .ok [startEv ['a'] [], tx ['2'] true, endEv ['a'], tx ['o']] := by rfl
+    .ok [startEv ['a'] [], tx ['2'], endEv ['a'], tx ['o']] := by rfl
 
 example : docRender 100 ex1 ex1data = implRender 100 ex1 ex1data := by rfl
 example : wfNodes ex1 = true := by decide
